@@ -59,6 +59,9 @@ async def _run_stream(chunks_):
     return items, bytes(p._buffer)
 
 
+_BLOCKED = [0]      # how often the TCP read loop was found waiting (every wait costs real time)
+
+
 class _W:
     def close(self):
         pass
@@ -75,7 +78,13 @@ async def _run_tcp(chunks_):
             continue
         reader.feed_data(c)
         while reader._buffer:
-            gen = await t.next_frame_generator()
+            try:
+                # bytes are buffered, so the read cannot block; a transport that now waits is waiting for bytes nobody sent
+                gen = await asyncio.wait_for(t.next_frame_generator(), 1.5 if _BLOCKED[0] < 4 else 0.1)
+            except asyncio.TimeoutError:
+                _BLOCKED[0] += 1
+                items.append(('raised', 'TransportTCP.next_frame_generator blocks although received bytes are waiting'))
+                return items, bytes(t._frame_parser._buffer)
             async for fr in gen:
                 items.append(_item(fr))
     return items, bytes(t._frame_parser._buffer)
